@@ -42,6 +42,12 @@ def schema_bad(rng, lfi, n):
             cands.append((kw, rng.choice(['not a date', 12])))
         elif base == 'dim':
             cands.append((kw, [1.5]))
+    # units on an attribute that cannot carry units (rejected with another exception class than a wrong value)
+    for kw, label, t in schema.S[kind]:
+        base = t.split(':')[0]
+        if not schema.units_allowed(t) and base in ('text', 'ident', 'status', 'dim', 'enum_soft', 'texts'):
+            ok = {'text': 'x', 'texts': ['x'], 'ident': 'ID', 'status': 1, 'dim': [2], 'enum_soft': 'Tool'}[base]
+            cands.append((kw, {rng.choice(['$setup', '$dict']): {'value': ok, 'units': 'm'}}))
     if not cands:
         return None
     kw, v = gen.pick(rng, cands)
@@ -120,6 +126,15 @@ def gen_case(rng, tier, avoid):
                 kw = {}
                 ops.insert(rng.randint(pos + 1, len(ops)), {'op': 'add', 'lf': lfi['lf'], 'kind': vk, 'h': h, 'name': vname,
                                                             'kwargs': kw, 'c': 0})
+    if rng.random() < 0.35:
+        # a call rejected by an interrupt arriving at an arbitrary line inside add_* (after or before the object registered itself)
+        cands = [op for op in ops if op.get('op') == 'add' and not op.get('bad') and op['kind'] not in ('origin', 'channel', 'frame')]
+        for op in cands[:rng.choice([1, 2])]:
+            twin = copy.deepcopy(op)
+            twin['h'] = 'intr_' + op['h']
+            twin['bad'] = 'interrupted_add'
+            twin['faults'] = [{'kind': 'interrupt', 'at_line': rng.randint(1, 80)}]
+            ops.insert(ops.index(op), twin)
     if rng.random() < 0.3:
         # a rejected later assignment
         cands = [op for op in ops if op.get('op') == 'add' and op.get('kind') == 'equipment' and not op.get('bad')]
